@@ -614,9 +614,27 @@ func C12(ctx *core.Ctx) {
 						if depth > 6 || usesLimit {
 							return
 						}
-						if ld, isLd := v.(*ssa.UnOp); isLd && ld.Op == token.MUL && fieldNameOfAddr(ld.X) == "limit" {
-							usesLimit = true
-							return
+						if ld, isLd := v.(*ssa.UnOp); isLd && ld.Op == token.MUL {
+							// the limit by role: an integer field of the buffer object itself
+							if fa, isFA := ld.X.(*ssa.FieldAddr); isFA && isIntType(ld.Type()) && sameNamed(fa.X.Type(), fn.Signature.Recv().Type()) {
+								usesLimit = true
+								return
+							}
+						}
+						if call, isCall := v.(*ssa.Call); isCall {
+							// a predicate method of the buffer (wouldOverflow): what it returns
+							if h := call.Call.StaticCallee(); h != nil && h.Pkg == r.Pkg && len(h.Blocks) > 0 && depth < 4 {
+								for _, rv := range ReturnedValues(h) {
+									for _, x := range rv {
+										walk(x, depth+2)
+									}
+								}
+								ssax.Instrs(h, func(hi ssa.Instruction) {
+									if iff, isIf := hi.(*ssa.If); isIf {
+										walk(iff.Cond, depth+2)
+									}
+								})
+							}
 						}
 						if in, isIn := v.(ssa.Instruction); isIn {
 							for _, op := range in.Operands(nil) {
